@@ -251,6 +251,34 @@ theorem get?_alloc_old {st : PyStore α} (o : α) {j : Nat} (hj : j < st.next) :
 theorem getD_alloc_old {st : PyStore α} (o d : α) {j : Nat} (hj : j < st.next) : getD (alloc st o).2 j d = getD st j d := by
   simp only [getD, get?_alloc_old o hj]
 
+/-- an attribute write changes the object behind that id and no other -/
+theorem get?_modify (st : PyStore α) (i j : Nat) (f : α → α) :
+    get? (modify st i f) j = if j = i then (get? st j).map f else get? st j := by
+  obtain ⟨n, objs⟩ := st
+  simp only [get?, modify]
+  induction objs with
+  | nil => simp
+  | cons e r ih =>
+    simp only [List.map_cons, List.find?_cons]
+    by_cases hej : e.1 = j
+    · by_cases hei : e.1 = i
+      · have hji : j = i := by omega
+        simp [hej, hji]
+      · have hji : ¬ j = i := by omega
+        simp [hej, hji]
+    · have h1 : (e.1 == j) = false := by simpa using hej
+      have h2 : ((if (e.1 == i) = true then (e.1, f e.2) else e).1 == j) = false := by
+        split <;> simpa using hej
+      rw [h1, h2]
+      exact ih
+
+theorem fresh_modify {st : PyStore α} (h : Fresh st) (i : Nat) (f : α → α) : Fresh (modify st i f) := by
+  intro e he
+  simp only [modify, List.mem_map] at he
+  obtain ⟨e0, he0, rfl⟩ := he
+  have := h e0 he0
+  split <;> exact this
+
 end PyStore
 
 
